@@ -561,6 +561,9 @@ class Body:
             """constant-fold the few shapes that matter: discr of a literal aggregate, comparisons of constants, Not"""
             if not isinstance(o, tuple):
                 return o
+            if o and o[0] == "discr" and isinstance(o[1], tuple) and o[1] and o[1][0] in ("field", "downcast"):
+                # the discriminant of a value built on this path and taken apart again: `(Ready(Ok(x)) as Ready).0`
+                o = ("discr", simplify(o[1])) + tuple(o[2:])
             if o[0] == "discr" and isinstance(o[1], tuple) and o[1][0] == "agg" and o[1][1][0] == "adt":
                 en = self.mir.enums.get(o[1][1][1])
                 if en:
